@@ -72,7 +72,15 @@ def rule_gate(ctx: Ctx, repo: Repo) -> None:
                             ctx.check(not dr, "R-C18.1", w, "no sampling draw when the rate is unset",
                                       construct=f"rate unset: draw {[d[1] for d in dr]}", scenario=lab)
                         else:
-                            ok = len(dr) <= 1 and all(d[1] in ("random.randrange",) and d[2] == (K(rate),) for d in dr)
+                            ok = len(dr) <= 1 and all(d[1] in ("random.randrange", "own.randrange") and d[2] == (K(rate),) for d in dr)
+                            if dr:
+                                # the draw comes from a generator the traced program cannot reach: a program that seeds or
+                                # consumes the global generator (random.seed(0) at the top of a request handler) would otherwise
+                                # decide which calls are sampled - e.g. none, or all of them
+                                ctx.check(all(d[1].startswith("own.") for d in dr), "R-C18.6", w,
+                                          "the sampling draw is independent of the traced program's use of the global random generator (the tracer draws from a generator of its own)",
+                                          construct="random.randrange(self.sample_rate) draws from the module-level generator the traced program shares" if any(not d[1].startswith("own.") for d in dr) else "own generator",
+                                          scenario=lab)
                             ctx.check(ok, "R-C18.1", w, "at most one draw per call event, uniform over range(rate)",
                                       construct=f"draws {[(d[1], d[2]) for d in dr]}", scenario=lab)
                         if stores:
